@@ -82,6 +82,17 @@ def config_reentry(quick):
     )
 
 
+def config_longrun(quick):
+    """(F) a long-running process that derives one logger per request from one parent: 200 000 (thorough: 400 000)
+    anonymous children of one logger in one go, made by New(), WithAttrs and With.  Every one of them must be a
+    new logger (Each visits exactly that many leaves) and the loggers handed out before keep their settings."""
+    return dict(
+        max_loggers=2, init_level=5, names=["a"], bool_lists=BOOL_LISTS, layouts=[""], opt_lists=[[]],
+        setter_args={"JSONMode": [(1, 0)]}, acts=["Set", "New", "BulkKids"], probe_sevs=[4], max_list=1, max_bulk=1,
+        bulk_n=200000 if quick else 400000,
+    )
+
+
 def big_config(quick):
     """Checked exhaustively by TLC only (too large to replay transition by transition)."""
     c = config(True)
@@ -139,11 +150,12 @@ def run(ctx, replay):
                      obs=["cfg", "ts"], rand_count=0, rand_depth=0, rand_loggers=3, tag="time"))
     jobs.append(lambda: corelib.run_core(ctx, config_reentry(ctx.quick()), invariants=["TreeOK", "OneFormat"], properties=["Isolation", "TreeMonotone"],
                      obs=["cfg", "tree", "shape"], rand_count=0, rand_depth=0, rand_loggers=3, tag="reentry", alt_env=False))
+    jobs.append(lambda: corelib.run_core(ctx, config_longrun(ctx.quick()), invariants=["TreeOK"], properties=["Isolation", "TreeMonotone"],
+                     obs=["cfg", "tree"], rand_count=0, rand_depth=0, rand_loggers=2, tag="longrun", alt_env=False))
     with concurrent.futures.ThreadPoolExecutor(max_workers=3) as pool:
         for f in [pool.submit(j) for j in jobs]:
             f.result()
-    ctx.assumptions += ["generated (anonymous) logger names never collide (26^-6 per pair)",
-                        "attribute probe uses LogAttrs at Always severity; loggers at level Off or with an empty writer list show no attributes"]
+    ctx.assumptions += ["attribute probe uses LogAttrs at Always severity; loggers at level Off or with an empty writer list show no attributes"]
     return ctx.finish(rule="every transition of the exhaustive MC graph (3 loggers; New/NewDetached/With*/Set* on level, format, "
                            "attrs, skip, writers) executed on the library with ALL live loggers observed after each call "
                            "(getters, Parent/Root/Each/Sublogger, probe shape, probe destinations, printed attributes) + "
